@@ -188,18 +188,29 @@ fn main() {
             let sut = strs::PStrSut {
                 w: a.num("w", 1),
                 size: a.num("size", 4),
-                strs: strs::strings(a.num("chars", 2), &alphabet(&a)),
+                strs: {
+                    let mut v = strs::strings(a.num("chars", 2), &alphabet(&a));
+                    if a.num("long", 0) == 1 {
+                        v.extend(strs::long_strings(a.num("size", 4) + 3));
+                    }
+                    v
+                },
                 byte_inits: a.num("bytes", 1) == 1,
             };
             run(&sut, &|l| sut.parse(l), &a)
         }
         "podstr" => {
-            let sut = strs::PodStrSut { n: a.num("n", 4), strs: strs::strings(a.num("chars", 2), &alphabet(&a)), byte_inits: a.num("bytes", 1) == 1 };
+            let n = a.num("n", 4);
+            let mut strs = strs::strings(a.num("chars", 2), &alphabet(&a));
+            if a.num("long", 0) == 1 {
+                strs.extend(strs::long_strings(n + 3));
+            }
+            let sut = strs::PodStrSut { n, strs, byte_inits: a.num("bytes", 1) == 1 };
             run(&sut, &|l| sut.parse(l), &a)
         }
         "pod" => {
             let kind = a.num("kind", 0);
-            let n = if kind == 0 { 1 } else { kind };
+            let n = if kind == 0 || kind == 2 { 1 } else { kind };
             let lens: Vec<usize> = if a.get("lens").is_some() { a.list("lens").iter().map(|x| *x as usize).collect() } else { vec![n.saturating_sub(1), n, n + 1, n + 7] };
             let sut = strs::PodSut { kind, lens };
             run(&sut, &|l| sut.parse(l), &a)
